@@ -79,9 +79,42 @@ pub mod verif {
 
 use verif::{point, Kind};
 
+// ThreadSanitizer does not model stand-alone fences, so every fence-based protocol (release
+// decrement + acquire fence, Dekker-style SeqCst fences) shows up as a false race. In a TSan
+// build of the verification harness (`--cfg excsn_fibre_verif_tsan`) every atomic operation
+// of the facade is therefore performed SeqCst and a fence also hits one global SeqCst cell,
+// which gives TSan a happens-before edge wherever the real protocol has one (and a few more).
+// Races on plain memory that exist under these stronger orderings are still reported.
+#[cfg(excsn_fibre_verif_tsan)]
+#[inline(always)]
+fn ord(_o: Ordering) -> Ordering {
+  Ordering::SeqCst
+}
+#[cfg(not(excsn_fibre_verif_tsan))]
+#[inline(always)]
+fn ord(o: Ordering) -> Ordering {
+  o
+}
+/// failure ordering of a compare-exchange (may not be Release / AcqRel)
+#[cfg(excsn_fibre_verif_tsan)]
+#[inline(always)]
+fn ordf(_o: Ordering) -> Ordering {
+  Ordering::SeqCst
+}
+#[cfg(not(excsn_fibre_verif_tsan))]
+#[inline(always)]
+fn ordf(o: Ordering) -> Ordering {
+  o
+}
+
 #[inline]
 pub(crate) fn fence(order: Ordering) {
   point(Kind::Fence);
+  #[cfg(excsn_fibre_verif_tsan)]
+  {
+    static TSAN_FENCE: std::sync::atomic::AtomicUsize = std::sync::atomic::AtomicUsize::new(0);
+    TSAN_FENCE.fetch_add(1, Ordering::SeqCst);
+  }
   std::sync::atomic::fence(order)
 }
 
@@ -135,52 +168,52 @@ macro_rules! instrumented_int_atomic {
       #[inline]
       pub(crate) fn load(&self, o: Ordering) -> $prim {
         point(Kind::Load);
-        self.0.load(o)
+        self.0.load(ord(o))
       }
       #[inline]
       pub(crate) fn store(&self, v: $prim, o: Ordering) {
         point(Kind::Store);
-        self.0.store(v, o)
+        self.0.store(v, ord(o))
       }
       #[inline]
       pub(crate) fn swap(&self, v: $prim, o: Ordering) -> $prim {
         point(Kind::Rmw);
-        self.0.swap(v, o)
+        self.0.swap(v, ord(o))
       }
       #[inline]
       pub(crate) fn fetch_add(&self, v: $prim, o: Ordering) -> $prim {
         point(Kind::Rmw);
-        self.0.fetch_add(v, o)
+        self.0.fetch_add(v, ord(o))
       }
       #[inline]
       pub(crate) fn fetch_sub(&self, v: $prim, o: Ordering) -> $prim {
         point(Kind::Rmw);
-        self.0.fetch_sub(v, o)
+        self.0.fetch_sub(v, ord(o))
       }
       #[inline]
       pub(crate) fn fetch_or(&self, v: $prim, o: Ordering) -> $prim {
         point(Kind::Rmw);
-        self.0.fetch_or(v, o)
+        self.0.fetch_or(v, ord(o))
       }
       #[inline]
       pub(crate) fn fetch_and(&self, v: $prim, o: Ordering) -> $prim {
         point(Kind::Rmw);
-        self.0.fetch_and(v, o)
+        self.0.fetch_and(v, ord(o))
       }
       #[inline]
       pub(crate) fn fetch_xor(&self, v: $prim, o: Ordering) -> $prim {
         point(Kind::Rmw);
-        self.0.fetch_xor(v, o)
+        self.0.fetch_xor(v, ord(o))
       }
       #[inline]
       pub(crate) fn fetch_max(&self, v: $prim, o: Ordering) -> $prim {
         point(Kind::Rmw);
-        self.0.fetch_max(v, o)
+        self.0.fetch_max(v, ord(o))
       }
       #[inline]
       pub(crate) fn fetch_min(&self, v: $prim, o: Ordering) -> $prim {
         point(Kind::Rmw);
-        self.0.fetch_min(v, o)
+        self.0.fetch_min(v, ord(o))
       }
       #[inline]
       pub(crate) fn compare_exchange(
@@ -191,7 +224,7 @@ macro_rules! instrumented_int_atomic {
         f: Ordering,
       ) -> Result<$prim, $prim> {
         point(Kind::Cas);
-        self.0.compare_exchange(cur, new, s, f)
+        self.0.compare_exchange(cur, new, ord(s), ordf(f))
       }
       #[inline]
       pub(crate) fn compare_exchange_weak(
@@ -203,9 +236,9 @@ macro_rules! instrumented_int_atomic {
       ) -> Result<$prim, $prim> {
         point(Kind::CasWeak);
         if verif::weak_should_fail() {
-          return Err(self.0.load(f));
+          return Err(self.0.load(ordf(f)));
         }
-        self.0.compare_exchange_weak(cur, new, s, f)
+        self.0.compare_exchange_weak(cur, new, ord(s), ordf(f))
       }
       #[inline]
       pub(crate) fn get_mut(&mut self) -> &mut $prim {
@@ -249,32 +282,32 @@ impl AtomicBool {
   #[inline]
   pub(crate) fn load(&self, o: Ordering) -> bool {
     point(Kind::Load);
-    self.0.load(o)
+    self.0.load(ord(o))
   }
   #[inline]
   pub(crate) fn store(&self, v: bool, o: Ordering) {
     point(Kind::Store);
-    self.0.store(v, o)
+    self.0.store(v, ord(o))
   }
   #[inline]
   pub(crate) fn swap(&self, v: bool, o: Ordering) -> bool {
     point(Kind::Rmw);
-    self.0.swap(v, o)
+    self.0.swap(v, ord(o))
   }
   #[inline]
   pub(crate) fn fetch_or(&self, v: bool, o: Ordering) -> bool {
     point(Kind::Rmw);
-    self.0.fetch_or(v, o)
+    self.0.fetch_or(v, ord(o))
   }
   #[inline]
   pub(crate) fn fetch_and(&self, v: bool, o: Ordering) -> bool {
     point(Kind::Rmw);
-    self.0.fetch_and(v, o)
+    self.0.fetch_and(v, ord(o))
   }
   #[inline]
   pub(crate) fn fetch_xor(&self, v: bool, o: Ordering) -> bool {
     point(Kind::Rmw);
-    self.0.fetch_xor(v, o)
+    self.0.fetch_xor(v, ord(o))
   }
   #[inline]
   pub(crate) fn compare_exchange(
@@ -285,7 +318,7 @@ impl AtomicBool {
     f: Ordering,
   ) -> Result<bool, bool> {
     point(Kind::Cas);
-    self.0.compare_exchange(cur, new, s, f)
+    self.0.compare_exchange(cur, new, ord(s), ordf(f))
   }
   #[inline]
   pub(crate) fn compare_exchange_weak(
@@ -297,9 +330,9 @@ impl AtomicBool {
   ) -> Result<bool, bool> {
     point(Kind::CasWeak);
     if verif::weak_should_fail() {
-      return Err(self.0.load(f));
+      return Err(self.0.load(ordf(f)));
     }
-    self.0.compare_exchange_weak(cur, new, s, f)
+    self.0.compare_exchange_weak(cur, new, ord(s), ordf(f))
   }
   #[inline]
   pub(crate) fn get_mut(&mut self) -> &mut bool {
@@ -335,17 +368,17 @@ impl<T> AtomicPtr<T> {
   #[inline]
   pub(crate) fn load(&self, o: Ordering) -> *mut T {
     point(Kind::Load);
-    self.0.load(o)
+    self.0.load(ord(o))
   }
   #[inline]
   pub(crate) fn store(&self, p: *mut T, o: Ordering) {
     point(Kind::Store);
-    self.0.store(p, o)
+    self.0.store(p, ord(o))
   }
   #[inline]
   pub(crate) fn swap(&self, p: *mut T, o: Ordering) -> *mut T {
     point(Kind::Rmw);
-    self.0.swap(p, o)
+    self.0.swap(p, ord(o))
   }
   #[inline]
   pub(crate) fn compare_exchange(
@@ -356,7 +389,7 @@ impl<T> AtomicPtr<T> {
     f: Ordering,
   ) -> Result<*mut T, *mut T> {
     point(Kind::Cas);
-    self.0.compare_exchange(cur, new, s, f)
+    self.0.compare_exchange(cur, new, ord(s), ordf(f))
   }
   #[inline]
   pub(crate) fn compare_exchange_weak(
@@ -368,9 +401,9 @@ impl<T> AtomicPtr<T> {
   ) -> Result<*mut T, *mut T> {
     point(Kind::CasWeak);
     if verif::weak_should_fail() {
-      return Err(self.0.load(f));
+      return Err(self.0.load(ordf(f)));
     }
-    self.0.compare_exchange_weak(cur, new, s, f)
+    self.0.compare_exchange_weak(cur, new, ord(s), ordf(f))
   }
   #[inline]
   pub(crate) fn get_mut(&mut self) -> &mut *mut T {
